@@ -3,10 +3,12 @@
 
    A recorded trace is [mode, maxReq, ev]: the hook mode ("ok" | "once" | "always"), the number of requests per
    HTTP thread, and the events in the real (total) order in which they happened.  Every event carries
-   t = logical thread and b = str(server.transport_kind) at that moment ("none" before any binding):
-      [e |-> "Begin", k]            the thread is about to issue an HTTP request (k = "http") / call serve() (k = kind)
-      [e |-> "HookStart", k]        on_serve_start(k) entered
-      [e |-> "HookEnd", k, ok]      on_serve_start(k) about to return (ok) / raise (~ok)
+   t = logical thread and b = the recorded binding at that moment: server.transport_kind, suffixed "+shm" when
+   server.transport_capabilities contains "shm" ("none" before any binding):
+      [e |-> "Begin", k]            the thread is about to issue an HTTP request (k = "http") / call serve() with a
+                                    transport of binding k ("pipe" | "unix" | "pipe+shm")
+      [e |-> "HookStart", k, bk]    on_serve_start(k) entered; bk = binding of the op of thread t that is running it
+      [e |-> "HookEnd", k, bk, ok]  on_serve_start(k) about to return (ok) / raise (~ok)
       [e |-> "Dispatch"]            a service method body runs
       [e |-> "End", res]            the request / serve() call is over: "dispatched" (HTTP 200 / response written) | "failed"
       [e |-> "Step", label]         written by the harness after every scheduler step of thread t: where t is parked
@@ -73,7 +75,7 @@ Obs0 == [b |-> "none", ok |-> [k \in Kinds |-> 0], hooks |-> 0, bad |-> {}]
 ObsStep(s, ev) ==
   LET b1  == ev.b
       ok1 == IF s.b # "none" /\ b1 # s.b THEN [s.ok EXCEPT ![s.b] = 0] ELSE s.ok      \* the binding s.b ended
-      ok2 == IF ev.e = "HookEnd" /\ ev.ok THEN [ok1 EXCEPT ![ev.k] = @ + 1] ELSE ok1
+      ok2 == IF ev.e = "HookEnd" /\ ev.ok THEN [ok1 EXCEPT ![ev.bk] = @ + 1] ELSE ok1
       h1  == s.hooks + (IF ev.e = "HookStart" THEN 1 ELSE 0) - (IF ev.e = "HookEnd" THEN 1 ELSE 0)
       nb  == (IF \E k \in Kinds : ok2[k] > 1 THEN {"OncePerBinding"} ELSE {})
         \cup (IF ev.e = "Dispatch" /\ (b1 = "none" \/ ok2[b1] < 1) THEN {"HookBeforeDispatch"} ELSE {})
